@@ -383,7 +383,7 @@ def actions_dict(idx):
             raise AnalysisError('dispatch table %s assigned %d times in MathExpression.eval' % (arg.id, len(vals)))
         arg = vals[0]
     if not isinstance(arg, ast.Dict) or any(not (isinstance(k, ast.Constant) and isinstance(k.value, str)) for k in arg.keys):
-        raise AnalysisError('dispatch table of MathExpression.eval is not a dict literal with string keys')
+        return fi, call, None      # not a literal: the keys are obtained by evaluating the table symbolically (Harness.table_keys)
     return fi, call, arg
 
 
@@ -393,7 +393,9 @@ def d2_table(ctx, idx, st):
     with r:
         g = st.get('g') or G.extract(idx)
         fi, call, table = actions_dict(idx)
-        keys = [k.value for k in table.keys]
+        keys = [k.value for k in table.keys] if table is not None else Harness(idx).table_keys()
+        if table is None:
+            table = call
         st['action_keys'] = keys
         dup = {k for k in keys if keys.count(k) > 1}
         for k in sorted(dup):
@@ -549,7 +551,7 @@ class Harness(object):
 
         def thunk():
             env = S.Env()
-            env.vars[fi.params[0]] = S.SelfObj(fi.cls)
+            env.vars[fi.params[0]] = self._self_object(it)
             env.vars['variables'] = S.DictSym('variables', 'num')
             env.vars['functions'] = S.DictSym('functions', 'func')
             env.vars['suffixes'] = S.DictSym('suffixes', 'num')
@@ -561,6 +563,7 @@ class Harness(object):
             arg = lib.get_kw(self.call, 'actions', 1)
             table = it.eval(arg, env, fi.module, fi, 0)
             return it.call_function(self.node_fi, [build(sp), table, False])
+        self._thunk_env = None
         paths = it.explore(thunk)
         self.state_reads, self.state_writes = list(it.state_reads), list(it.state_writes)
         # helpers the normaliser could not inline but whose bodies were interpreted here are thereby reviewed: a difference
@@ -569,6 +572,56 @@ class Harness(object):
         if left:
             self.idx.unreviewed = [q for q in left if q not in it.followed]
         return sp, paths
+
+
+def _harness_self_object(self, it):
+    """self with the *stateless action tables* that __init__ builds (dict displays with constant string keys whose values are
+    lambdas or methods); every other field stays instance state (reads are StateVal, writes are recorded)."""
+    me = S.SelfObj(self.eval_fi.cls)
+    init = self.idx.lookup(self.eval_fi.cls, '__init__')
+    if init is None:
+        return me
+    env = S.Env()
+    env.vars[init.params[0]] = me
+    for p_ in init.params[1:]:
+        env.vars[p_] = S.Opaque('__init__ argument %s' % p_)
+    it.init_phase = True
+    try:
+        for s_ in init.node.body:
+            if isinstance(s_, ast.Assign) and len(s_.targets) == 1 and isinstance(s_.targets[0], ast.Attribute) \
+                    and isinstance(s_.targets[0].value, ast.Name) and s_.targets[0].value.id == init.params[0] \
+                    and isinstance(s_.value, ast.Dict) and s_.value.keys and all(
+                        isinstance(k, ast.Constant) and isinstance(k.value, str) for k in s_.value.keys) \
+                    and all(isinstance(v, (ast.Lambda, ast.Attribute)) for v in s_.value.values):
+                try:
+                    it.exec_stmt(s_, env, init.module, init, 0)
+                except AnalysisError:
+                    pass
+    finally:
+        it.init_phase = False
+    return me
+
+
+def _harness_table_keys(self):
+    sp = S.Space()
+    it = S.Interp(self.idx, sp)
+    fi = self.eval_fi
+    env = S.Env()
+    env.vars[fi.params[0]] = self._self_object(it)
+    for p_ in fi.params[1:]:
+        env.vars[p_] = S.Opaque(p_)
+    it.preset, it.trace = [], []
+    for s_ in fi.node.body:
+        if isinstance(s_, (ast.Assign, ast.FunctionDef)):
+            it.exec_stmt(s_, env, fi.module, fi, 0)
+    table = it.eval(lib.get_kw(self.call, 'actions', 1), env, fi.module, fi, 0)
+    if not isinstance(table, dict) or not all(isinstance(k, str) for k in table):
+        raise AnalysisError('dispatch table of MathExpression.eval could not be evaluated to a table with string keys')
+    return list(table)
+
+
+Harness._self_object = _harness_self_object
+Harness.table_keys = _harness_table_keys
 
 
 def tokens_to_values(sp, seq, g):
@@ -707,7 +760,7 @@ def d3_folds(ctx, idx, st):
             where = lib.loc(idx.func(ME + '.eval'))
             try:
                 _, _, table = actions_dict(idx)
-                for k, v in zip(table.keys, table.values):
+                for k, v in (zip(table.keys, table.values) if table is not None else []):
                     if k.value == gname:
                         tgt = handler_target(idx, v)
                         if tgt is not None:
